@@ -39,7 +39,7 @@ func (g *StmtGen) lit() proto.Val {
 	case 2:
 		return proto.Bool(r.Bool())
 	}
-	return proto.Str([]string{"", "a", "it is", "x;y", "SELECT", "with \"dq\"", "50%", "a,b", "(p)", "  sp  ", "é", "AND"}[r.Intn(12)])
+	return proto.Str([]string{"", "a", "it is", "x;y", "SELECT", "with \"dq\"", "50%", "a,b", "(p)", "  sp  ", "é", "AND", "it\\'s", "x\\'", "a\\\\b", "\"json\"", "\\'lead", "\"", "tail\\\\"}[r.Intn(19)])
 }
 
 func (g *StmtGen) colRef(quals []string) *proto.Operand {
